@@ -45,6 +45,9 @@ def directed(rnd, quick):
             for seg in (1 << 20, 1, 5):
                 cases.append({"ex": [ex(1, framing, n, cut=cut, seg=seg), ex(2, "cl", 5)], "limit": 2, "concurrent": 1})
     # (bodies delimited by connection close are not in the property's quantifier: awc reads HTTP/1.1 responses without a length as empty)
+    # chunk-size lines with every hex digit, upper and lower case boundaries (10..15, 26, 171, 255, 256, 4096)
+    for cs in (10, 11, 12, 13, 14, 15, 26, 171, 255, 256, 4096):
+        cases.append({"ex": [ex(1, "chunked", cs * 2 + 3, chunk=cs, seg=rnd.choice([1, 9, 1 << 20])), ex(2, "cl", 5)], "limit": 2, "concurrent": 1})
     # leftovers after a complete response on a persistent connection, then another request
     for framing in ("cl", "chunked"):
         cases.append({"ex": [ex(1, framing, 12, extra=True), ex(2, "cl", 5), ex(3, "cl", 5)], "limit": 2, "concurrent": 1})
